@@ -1106,35 +1106,10 @@ fn run_special(ctx: &mut Ctx, c: &Case, tw: Tweak) {
         return;
     }
     if matches!(c, Case::ArcSwap { .. }) && matches!(tw.plumb, 9 | 10) && arcswap_part_above_cap(c) {
-        // OUTSIDE the contract (weights are i64 or f64, the types the CLI and the C API use): with an
-        // unsigned weight type `max_part_weight - part_weight` underflows when a part of the input
-        // is heavier than the cap.  Run and counted as an observation, never an oracle failure.
-        let (ran, _, _) = run_impl_x(c, false, tw, Ctxk::Install);
-        let out = match &ran {
-            Ran::Ok(ids, _) => {
-                ctx.count("observation:arcswap-unsigned-above-cap:returned");
-                format!("ok {}", join(ids)).trim_end().to_string()
-            }
-            Ran::Err(e) => format!("err {}", e),
-            Ran::Panic(m) => {
-                ctx.count(if m.contains("subtract with overflow") {
-                    "observation:arcswap-unsigned-underflow"
-                } else {
-                    "observation:arcswap-unsigned-above-cap:other-panic"
-                });
-                format!("panic {}", m)
-            }
-            Ran::Hang => "hang".into(),
-        };
-        let idx = ctx.record(
-            format!("sp o {} {} {} {} {} {}", tw.negzero, tw.scale, tw.preset, tw.plumb, tw.coord, format_op(c)),
-            out,
-            false,
-        );
-        if let Ran::Hang = ran {
-            ctx.fail(idx, "hang@arcswap", "watchdog, unsigned weights above the cap".into());
-        }
-        return;
+        // An UNSIGNED weight type with a part of the input heavier than the cap: `max_part_weight -
+        // part_weight` used to underflow there (repaired in /repo, `fix: ArcSwap accepts unsigned
+        // weights when a part starts above the cap`).  Inside the contract: judged like every other case.
+        ctx.count("special:arcswap-unsigned-above-cap");
     }
     let det = single_run_deterministic(c);
     let is_km = matches!(c, Case::KMeans { .. });
@@ -1770,14 +1745,14 @@ fn expand_pwx(threads: usize, unsigned: bool, mi: Option<f64>, shape: &str, n: u
     // blocks; one heavy vertex at least per block keeps its id, about one other vertex in 16 gets
     // a random id (a ragged cut: there is something to improve)
     let mut ids: Vec<usize> = (0..n).map(|i| i * k / n).collect();
-    let mut ws: Vec<i64> = (0..n).map(|_| if unsigned && mi.is_some() { 1 } else { rng.range(0, 3) }).collect();
+    let mut ws: Vec<i64> = (0..n).map(|_| rng.range(0, 3)).collect();
     // the heavy load of a part: at most 2^e, and k of them (plus the light weights) fit i64
     let top: i64 = (1i64 << e).min((i64::MAX - 4 * n as i64) / k as i64);
     let mut heavy = vec![false; n];
     for p in 0..k {
         let members: Vec<usize> = (0..n).filter(|&i| ids[i] == p).collect();
-        // unsigned weights must not start above the cap (outside the contract, see f2_*.case)
-        let load = if unsigned && mi.is_some() { top } else { (top - rng.range(0, top / 4)).max(1 << 59) };
+        // (unsigned weights may start above the cap too: see f2_*.case, repaired)
+        let load = (top - rng.range(0, top / 4)).max(1 << 59);
         let h = 1 + rng.usize(3.min(members.len()));
         let mut left = load;
         for j in 0..h {
@@ -1796,11 +1771,8 @@ fn expand_pwx(threads: usize, unsigned: bool, mi: Option<f64>, shape: &str, n: u
             ids[i] = rng.usize(k);
         }
     }
-    let c = Case::ArcSwap { threads, f64w: false, mi, rows, ids, ws };
-    if unsigned && arcswap_part_above_cap(&c) {
-        return None;
-    }
-    Some(c)
+    let _ = unsigned;
+    Some(Case::ArcSwap { threads, f64w: false, mi, rows, ids, ws })
 }
 
 fn run_pwx(ctx: &mut Ctx, op: &str) {
